@@ -42,6 +42,7 @@ FIXTURE_SEED = {
     'LINKPAIR': 'K1-all-rotate-right-grandchild-parent',
     'NILSTATE': 'K3-set-nil-not-unlinked-on-red-parent',
     'COLOR': 'K2-key-insert-new-black',
+    'CLIMB': 'CL1-set-after-climb-node-is-new-parent',
 }
 # second fixture for LIVE on the seg family
 EXTRA_FIXTURES = {'C03': ['L4-seg-expiry-le'], 'C16': ['L4-seg-expiry-le']}
